@@ -1,6 +1,8 @@
 package an
 
 import (
+	"sort"
+	"go/constant"
 	"fmt"
 	"go/token"
 	"go/types"
@@ -58,6 +60,14 @@ func expr(v ssa.Value, d int) string {
 			}
 			return "*" + in
 		}
+		if x.Op == token.NOT {
+			// the negation of a comparison is the opposite comparison
+			if bo, ok := x.X.(*ssa.BinOp); ok {
+				if ng, has := negRelTok[bo.Op]; has {
+					return cmpExpr(bo.X, ng, bo.Y, d)
+				}
+			}
+		}
 		return x.Op.String() + expr(x.X, d+1)
 	case *ssa.FieldAddr:
 		return "&" + strings.TrimPrefix(expr(x.X, d+1), "&") + "." + fieldName(x.X.Type(), x.Field)
@@ -79,6 +89,35 @@ func expr(v ssa.Value, d int) string {
 		}
 		return expr(x.X, d+1) + "[" + lo + ":" + hi + "]"
 	case *ssa.BinOp:
+		if _, isCmp := negRelTok[x.Op]; isCmp {
+			return cmpExpr(x.X, x.Op, x.Y, d)
+		}
+		switch x.Op {
+		case token.ADD, token.MUL, token.AND, token.OR, token.XOR:
+			// commutative and associative (on integers): one flat list of operands in a fixed order,
+			// constants last - "4 + (a + b)", "(a + 4) + b" and "b + a + 4" render alike
+			if !isStringType(x.Type()) {
+				var terms, consts []string
+				var collect func(v ssa.Value, dd int)
+				collect = func(v ssa.Value, dd int) {
+					if bo, ok := v.(*ssa.BinOp); ok && bo.Op == x.Op && dd < 24 && types.Identical(bo.Type(), x.Type()) {
+						collect(bo.X, dd+1)
+						collect(bo.Y, dd+1)
+						return
+					}
+					if _, isC := v.(*ssa.Const); isC {
+						consts = append(consts, expr(v, dd+1))
+					} else {
+						terms = append(terms, expr(v, dd+1))
+					}
+				}
+				collect(x.X, d+1)
+				collect(x.Y, d+1)
+				sort.Strings(terms)
+				sort.Strings(consts)
+				return "(" + strings.Join(append(terms, consts...), " "+x.Op.String()+" ") + ")"
+			}
+		}
 		return "(" + expr(x.X, d+1) + " " + x.Op.String() + " " + expr(x.Y, d+1) + ")"
 	case *ssa.Convert:
 		return TypeName(x.Type()) + "(" + expr(x.X, d+1) + ")"
@@ -208,8 +247,63 @@ func DomConds(b *ssa.BasicBlock) []DomCond {
 			}
 			if only {
 				out = append(out, DomCond{If: iff, Cond: Expr(iff.Cond), True: k == 0})
+				out = impliedConds(iff, iff.Cond, k == 0, out, 0)
 			}
 		}
+	}
+	return out
+}
+
+// impliedConds: a branch on a boolean that was computed as a value - "case a && b:" of a tagless switch,
+// "x := a || b; if x" - is a branch on a phi with constant edges from the short-circuit exits.  On the side
+// where the phi differs from those constants, every operand is known: the last operand has the phi's value
+// and each short-circuit test went the way that continues the evaluation.  A negation flips the polarity.
+func impliedConds(iff *ssa.If, cond ssa.Value, truth bool, out []DomCond, depth int) []DomCond {
+	if depth > 4 {
+		return out
+	}
+	if u, ok := cond.(*ssa.UnOp); ok && u.Op == token.NOT {
+		out = append(out, DomCond{If: iff, Cond: Expr(u.X), True: !truth})
+		return impliedConds(iff, u.X, !truth, out, depth+1)
+	}
+	phi, ok := cond.(*ssa.Phi)
+	if !ok {
+		return out
+	}
+	blk := phi.Block()
+	var rest []int
+	constVal, haveConst := false, false
+	for i, e := range phi.Edges {
+		if c, isC := e.(*ssa.Const); isC && c.Value != nil && c.Value.Kind() == constant.Bool {
+			v := constant.BoolVal(c.Value)
+			if haveConst && v != constVal {
+				return out
+			}
+			constVal, haveConst = v, true
+		} else {
+			rest = append(rest, i)
+		}
+	}
+	if !haveConst || len(rest) != 1 || truth == constVal {
+		return out
+	}
+	// the value came through the one computed edge
+	v := phi.Edges[rest[0]]
+	out = append(out, DomCond{If: iff, Cond: Expr(v), True: truth})
+	out = impliedConds(iff, v, truth, out, depth+1)
+	for i, e := range phi.Edges {
+		if _, isC := e.(*ssa.Const); !isC || i >= len(blk.Preds) {
+			continue
+		}
+		pr := blk.Preds[i]
+		pif, ok := pr.Instrs[len(pr.Instrs)-1].(*ssa.If)
+		if !ok || len(pr.Succs) != 2 || pr.Succs[0] == pr.Succs[1] {
+			continue
+		}
+		// the short-circuit exit was not taken
+		dir := pr.Succs[1] == blk // exit on false => the test was true
+		out = append(out, DomCond{If: pif, Cond: Expr(pif.Cond), True: dir})
+		out = impliedConds(pif, pif.Cond, dir, out, depth+1)
 	}
 	return out
 }
@@ -218,7 +312,8 @@ func DomConds(b *ssa.BasicBlock) []DomCond {
 func EdgeConds(from, to *ssa.BasicBlock) []DomCond {
 	out := DomConds(from)
 	if iff, ok := from.Instrs[len(from.Instrs)-1].(*ssa.If); ok && from.Succs[0] != from.Succs[1] {
-		out = append([]DomCond{{If: iff, Cond: Expr(iff.Cond), True: from.Succs[0] == to}}, out...)
+		first := impliedConds(iff, iff.Cond, from.Succs[0] == to, []DomCond{{If: iff, Cond: Expr(iff.Cond), True: from.Succs[0] == to}}, 0)
+		out = append(first, out...)
 	}
 	return out
 }
@@ -227,12 +322,27 @@ func EdgeConds(from, to *ssa.BasicBlock) []DomCond {
 // matched as well: "x != y" true is "x == y" false.
 func HasCond(cs []DomCond, cond string, val bool) bool {
 	neg := negCond(cond)
-	for _, c := range cs {
-		if c.Cond == cond && c.True == val {
-			return true
+	same := []string{cond}
+	if f := flipCond(cond); f != "" {
+		same = append(same, f)
+	}
+	var opp []string
+	if neg != "" {
+		opp = append(opp, neg)
+		if f := flipCond(neg); f != "" {
+			opp = append(opp, f)
 		}
-		if neg != "" && c.Cond == neg && c.True == !val {
-			return true
+	}
+	for _, c := range cs {
+		for _, p := range same {
+			if c.Cond == p && c.True == val {
+				return true
+			}
+		}
+		for _, p := range opp {
+			if c.Cond == p && c.True == !val {
+				return true
+			}
 		}
 	}
 	return false
@@ -258,4 +368,210 @@ func negCond(c string) string {
 		}
 	}
 	return ""
+}
+
+// BoolOperand is one operand of a short-circuit expression together with the value it must have had.
+type BoolOperand struct {
+	V    ssa.Value
+	True bool
+}
+
+// BoolPhiOperands: for a boolean phi with constant edges (a && b / a || b computed as a value) and an
+// observed value that differs from those constants, the operands and the values they had: the computed
+// edge carries the observed value, each short-circuit test went the way that continues the evaluation.
+func BoolPhiOperands(phi *ssa.Phi, truth bool) []BoolOperand {
+	blk := phi.Block()
+	var rest []int
+	constVal, haveConst := false, false
+	for i, e := range phi.Edges {
+		if c, isC := e.(*ssa.Const); isC && c.Value != nil && c.Value.Kind() == constant.Bool {
+			v := constant.BoolVal(c.Value)
+			if haveConst && v != constVal {
+				return nil
+			}
+			constVal, haveConst = v, true
+		} else {
+			rest = append(rest, i)
+		}
+	}
+	if !haveConst || len(rest) != 1 || truth == constVal {
+		return nil
+	}
+	out := []BoolOperand{{phi.Edges[rest[0]], truth}}
+	for i, e := range phi.Edges {
+		if _, isC := e.(*ssa.Const); !isC || i >= len(blk.Preds) {
+			continue
+		}
+		pr := blk.Preds[i]
+		pif, ok := pr.Instrs[len(pr.Instrs)-1].(*ssa.If)
+		if !ok || len(pr.Succs) != 2 || pr.Succs[0] == pr.Succs[1] {
+			continue
+		}
+		out = append(out, BoolOperand{pif.Cond, pr.Succs[1] == blk})
+	}
+	return out
+}
+
+// Cmp gives the comparison that holds at this point in normal form: negated when the branch outcome is
+// false, and with a constant operand (if there is one) on the right.
+func (dc DomCond) Cmp() (x, y ssa.Value, rel token.Token, ok bool) {
+	x, y, rel, ok = CondCmp(dc.If.Cond)
+	if !ok {
+		return
+	}
+	if !dc.True {
+		rel = negRel(rel)
+	}
+	if _, xc := x.(*ssa.Const); xc {
+		if _, yc := y.(*ssa.Const); !yc {
+			x, y, rel = y, x, flipRel(rel)
+		}
+	}
+	return
+}
+
+var negRelTok = map[token.Token]token.Token{token.LSS: token.GEQ, token.GEQ: token.LSS, token.GTR: token.LEQ, token.LEQ: token.GTR, token.EQL: token.NEQ, token.NEQ: token.EQL}
+var flipRelTok = map[token.Token]token.Token{token.LSS: token.GTR, token.GTR: token.LSS, token.LEQ: token.GEQ, token.GEQ: token.LEQ, token.EQL: token.EQL, token.NEQ: token.NEQ}
+
+func isStringType(t types.Type) bool {
+	b, ok := t.Underlying().(*types.Basic)
+	return ok && b.Info()&types.IsString != 0
+}
+
+// cmpExpr renders a comparison in one canonical form, whichever way it is written in the source: a constant
+// operand stands on the right ("0 == x" is "x == 0"); between two non-constant operands the relation is
+// "<" or "<=" ("a > b" is "b < a"), and for == / != the operands are ordered by their rendering.
+func cmpExpr(x ssa.Value, op token.Token, y ssa.Value, d int) string {
+	_, xc := x.(*ssa.Const)
+	_, yc := y.(*ssa.Const)
+	l, r := expr(x, d+1), expr(y, d+1)
+	swap := false
+	switch {
+	case xc && !yc:
+		swap = true
+	case !xc && !yc:
+		switch op {
+		case token.GTR, token.GEQ:
+			swap = true
+		case token.EQL, token.NEQ:
+			swap = r < l
+		}
+	}
+	if swap {
+		l, r, op = r, l, flipRelTok[op]
+	}
+	return "(" + l + " " + op.String() + " " + r + ")"
+}
+
+// flipCond: "(A op B)" written from the other side, "(B op' A)".
+func flipCond(c string) string {
+	if !strings.HasPrefix(c, "(") || !strings.HasSuffix(c, ")") {
+		return ""
+	}
+	for _, p := range [][2]string{{" == ", " == "}, {" != ", " != "}, {" <= ", " >= "}, {" >= ", " <= "}, {" < ", " > "}, {" > ", " < "}} {
+		depth := 0
+		for i := 1; i < len(c)-1; i++ {
+			switch c[i] {
+			case '(', '[':
+				depth++
+			case ')', ']':
+				depth--
+			}
+			if depth == 0 && strings.HasPrefix(c[i:], p[0]) {
+				return "(" + c[i+len(p[0]):len(c)-1] + p[1] + c[1:i] + ")"
+			}
+		}
+	}
+	return ""
+}
+
+// LinForm reads an integer expression as a linear form over the renderings of its non-arithmetic leaves:
+// sums, differences, products with a constant and left shifts by a constant are expanded, conversions are
+// looked through (widths are not modelled).  The constant term has the key "".  Independent of how the
+// source associates, orders or factors the expression: 4*(80+x), (x+80)*4 and 320+4*x give the same form.
+func LinForm(v ssa.Value) map[string]int64 {
+	out := map[string]int64{}
+	var add func(v ssa.Value, k int64, d int)
+	add = func(v ssa.Value, k int64, d int) {
+		if d > 30 {
+			out[Expr(v)] += k
+			return
+		}
+		switch x := v.(type) {
+		case *ssa.Const:
+			if c, ok := ConstOf(x); ok && c.IsInt64() {
+				out[""] += k * c.Int64()
+				return
+			}
+		case *ssa.Convert:
+			if _, _, ok := intRange(x.X.Type()); ok {
+				add(x.X, k, d+1)
+				return
+			}
+		case *ssa.ChangeType:
+			add(x.X, k, d+1)
+			return
+		case *ssa.BinOp:
+			switch x.Op {
+			case token.ADD:
+				if !isStringType(x.Type()) {
+					add(x.X, k, d+1)
+					add(x.Y, k, d+1)
+					return
+				}
+			case token.SUB:
+				add(x.X, k, d+1)
+				add(x.Y, -k, d+1)
+				return
+			case token.MUL:
+				if c, ok := ConstOf(x.X); ok && c.IsInt64() {
+					add(x.Y, k*c.Int64(), d+1)
+					return
+				}
+				if c, ok := ConstOf(x.Y); ok && c.IsInt64() {
+					add(x.X, k*c.Int64(), d+1)
+					return
+				}
+			case token.SHL:
+				if c, ok := ConstOf(x.Y); ok && c.IsInt64() && c.Int64() < 32 {
+					add(x.X, k<<uint(c.Int64()), d+1)
+					return
+				}
+			}
+		}
+		out[Expr(v)] += k
+	}
+	add(v, 1, 0)
+	for a, k := range out {
+		if k == 0 {
+			delete(out, a)
+		}
+	}
+	return out
+}
+
+// LinString renders a linear form in a fixed order ("3*a + b + 4").
+func LinString(l map[string]int64) string {
+	var ks []string
+	for a := range l {
+		if a != "" {
+			ks = append(ks, a)
+		}
+	}
+	sort.Strings(ks)
+	var parts []string
+	for _, a := range ks {
+		if l[a] == 1 {
+			parts = append(parts, a)
+		} else {
+			parts = append(parts, fmt.Sprintf("%d*%s", l[a], a))
+		}
+	}
+	if c, ok := l[""]; ok {
+		parts = append(parts, fmt.Sprint(c))
+	}
+	if len(parts) == 0 {
+		return "0"
+	}
+	return strings.Join(parts, " + ")
 }
